@@ -19,6 +19,9 @@ def main():
             diff = subprocess.run(["git", "-C", "/repo", "diff", "HEAD"], capture_output=True).stdout
             if diff.strip():
                 subprocess.run(["git", "-C", wt, "apply"], input=diff, check=True)
+        elif commit.startswith("PATCH:"):
+            subprocess.check_call(["git", "-C", "/repo", "worktree", "add", "-q", "--detach", wt, "HEAD"])
+            subprocess.check_call(["git", "-C", wt, "apply", os.path.abspath(commit[6:])])
         else:
             subprocess.check_call(["git", "-C", "/repo", "worktree", "add", "-q", "--detach", wt, commit])
         junit = os.path.join(tmp, "junit.xml")
